@@ -10,8 +10,10 @@ PROP = dict(
     trusted=["contract URL-ID: (*url.URL).String() is a function of the 11 fields of url.URL and nothing else (the model's `render` "
              "parameter; the harness checks the field list by reflection and re-renders a field-wise copy on every case)",
              "url.Userinfo is immutable, so sharing the mask between results is unobservable (User modelled as Option Userinfo)",
-             "gen/c16.go reads the mask from `var redactedUserinfo = url.UserPassword(..)` and checks that RedactUserinfo assigns that "
-             "variable to the copy's User field; the String() answers used by the Lean driver are an oracle table computed by net/url"],
+             "gen/c16.go finds the mask by what it is: every store into the User field of a url.URL in the functions reachable from "
+             "RedactUserinfo / RedactUserinfoInURLError is followed with go/types (local names, parameters at their call sites, "
+             "unexported never-written package-level variables) back to url.UserPassword(const, const) / url.User(const) calls, and all "
+             "of them must denote one and the same mask; the String() answers used by the Lean driver are an oracle table computed by net/url"],
     level_text="Lean theorems (for every String function, every heap of URL values, every pointer, every URL and error value) about an "
                "executable pointer-level model of RedactUserinfo and RedactUserinfoInURLError whose mask is regenerated from the source; "
                "the model is tied to the Go code by running both on the same generated pairs on every check",
